@@ -286,13 +286,18 @@ func c05LeastConn(r *vres.Report, maxN int) {
 	type variant struct {
 		weights string
 		base    int
+		// prelude: what the pool has been through before: "" = fresh; "outage": it ran under
+		// round_robin, b0 was ejected, requests were served meanwhile, the window ran out, and
+		// the strategy was then switched to least_connections (what is in flight is what counts,
+		// whatever happened earlier)
+		prelude string
 	}
-	variants := []variant{{"equal", 0}}
+	variants := []variant{{"equal", 0, ""}, {"equal", 0, "outage"}}
 	for _, w := range []string{"descending", "ascending"} {
-		variants = append(variants, variant{w, 0})
+		variants = append(variants, variant{w, 0, ""})
 	}
 	for _, b := range []int{99, 100, 101, 1000, 65535, 65536, 1 << 20} {
-		variants = append(variants, variant{"equal", b})
+		variants = append(variants, variant{"equal", b, ""})
 	}
 	weightsOf := func(scheme string, n int) []int {
 		w := make([]int, n)
@@ -308,7 +313,7 @@ func c05LeastConn(r *vres.Report, maxN int) {
 	}
 	for _, va := range variants {
 		for n := 1; n <= maxN; n++ {
-			if (va.weights != "equal" && (n < 2 || n > 3)) || (va.base != 0 && n > 2) {
+			if (va.weights != "equal" && (n < 2 || n > 3)) || (va.base != 0 && n > 2) || (va.prelude != "" && (n < 2 || n > 3)) {
 				continue
 			}
 			total := 1
@@ -335,7 +340,23 @@ func c05LeastConn(r *vres.Report, maxN int) {
 					var gauges []int32
 					setupOK := true
 					vh.RunSeq(r, "C05/sequential", func(s *vrt.Sched) {
-						k := newKit(s, kitOpts{Strategy: "least_connections", N: n, PassiveThr: 1, Window: 1000, Weights: weightsOf(va.weights, n)})
+						first := "least_connections"
+						if va.prelude == "outage" {
+							first = "round_robin"
+						}
+						k := newKit(s, kitOpts{Strategy: first, N: n, PassiveThr: 1, Window: 1000, Weights: weightsOf(va.weights, n)})
+						if va.prelude == "outage" {
+							k.lb.MarkBackendUnhealthy(k.backendByName("b0"), 10*time.Second)
+							for q := 0; q < 2*n+1; q++ {
+								k.request("10.0.0.3", nil)
+								evals++
+							}
+							s.AdvanceQuiet(11 * time.Second)
+							k.request("10.0.0.3", nil)
+							if err := k.lb.SetStrategy("least_connections"); err != nil {
+								vh.ToolError("switch: %v", err)
+							}
+						}
 						// fill every backend to 2 in-flight requests, then release down to the vector
 						var hs []*held
 						for q := 0; q < 2*n; q++ {
@@ -363,7 +384,7 @@ func c05LeastConn(r *vres.Report, maxN int) {
 						got, status = servedIndex(k, "10.0.0.2")
 						evals++
 					})
-					desc := fmt.Sprintf("least_connections n=%d weights=%v in-flight %v (+%d on every backend) ejected-mask=%b", n, weightsOf(va.weights, n), vec, va.base, mask)
+					desc := fmt.Sprintf("least_connections n=%d weights=%v in-flight %v (+%d on every backend) ejected-mask=%b%s", n, weightsOf(va.weights, n), vec, va.base, mask, map[string]string{"outage": " after an outage of b0 under round_robin and a switch to least_connections"}[va.prelude])
 					if !setupOK {
 						if va.weights == "equal" {
 							c05Viol(r, "C05/least_connections/fill-uneven", fmt.Sprintf("n=%d: 2n overlapping requests from an idle pool did not put 2 on every backend", n), n, nil)
